@@ -1,6 +1,7 @@
 import TxVerif.Props.C11
 import TxVerif.Tie.Skeleton
 import TxVerif.Props.C11History
+import TxVerif.Props.C11Engine
 open TxVerif
 #print axioms space_eq
 #print axioms alloc_accounting
@@ -19,3 +20,38 @@ open TxVerif
 #print axioms tx_keeps_quiet
 #print axioms history_accounted
 #print axioms history_space_eq
+#print axioms quiet_congr_sets
+#print axioms eacc_begin
+#print axioms eacc_eff
+#print axioms eexact_eff
+#print axioms eacc_alloc
+#print axioms eacc_free
+#print axioms doFlush_eff
+#print axioms eacc_flushList
+#print axioms eacc_flushPageOp
+#print axioms eacc_doCheckpoint
+#print axioms eacc_step
+#print axioms eacc_ops
+#print axioms eacc_fileCommit
+#print axioms cWalUpd_cAllocUpd
+#print axioms eacc_commit
+#print axioms eacc_length
+#print axioms commit_ok_maxPages
+#print axioms engAcc_quiet
+#print axioms engAcc_accounted
+#print axioms engAcc_space_eq
+#print axioms engAcc_meta_exact
+#print axioms engAcc_create
+#print axioms engAcc_run
+#print axioms c11_engine_in_tx
+#print axioms c11_engine_tx_commit
+#print axioms c11_engine_tx_abort
+#print axioms c11_engine_tx_abort_flushed
+#print axioms c11_engine_tx_failed_commit
+#print axioms c11_engine_runTxn
+#print axioms c11_engine_history
+#print axioms c11_engine_space_eq
+#print axioms c11_engine_space_eq_created
+#print axioms runTxn_maxPages
+#print axioms runHistory_maxPages
+#print axioms c11_engine_space_eq_limit
